@@ -10,6 +10,7 @@ import (
 	"errors"
 	"fmt"
 	"net"
+	"os"
 	"strings"
 	"testing"
 	"time"
@@ -42,6 +43,10 @@ type c19Cfg struct {
 	closeTimes                       []time.Duration // closer thread: Close after one of these (free choice); nil = no closer
 	failChoice                       bool            // every listen after the first may fail (environment choice)
 	failFirst                        bool            // the constructor's listen may fail too
+	// transportClose: main ends with the shutdown sequence of quic-go's Transport.Close on a conn it
+	// does not own followed by hysteria's client Close: SetReadDeadline(now), wait until the reader
+	// has seen the timeout and stopped, SetReadDeadline(zero), Close.
+	transportClose bool
 	portKind, jitterKind             vsched.ChoiceKind
 	quick, thorough                  explore.Bounds
 }
@@ -64,6 +69,7 @@ type c19World struct {
 	conn          *udpHopPacketConn
 	closeCalled   bool // some thread has entered the first Close
 	closeReturned bool // a Close call has returned
+	tclosing      bool // transportClose sequence started: the reader stops at the next timeout
 	sent          map[string]int
 	injected      []c19Inj
 	injectedSet   map[string]bool
@@ -266,6 +272,23 @@ func (w *c19World) afterClose() {
 			e.Fail("after Close returned socket s%d (of %d ever created) is still open", i, len(w.socks))
 		}
 	}
+	// the conn's own goroutines (recvLoops, hopLoop) are gone once everything is idle after Close
+	var stuck []string
+	for _, a := range e.Alive() {
+		if strings.Contains(a, "conn.go:") {
+			stuck = append(stuck, a)
+		}
+	}
+	if len(stuck) > 0 {
+		if w.cfg.transportClose && !c19GateGoroutineLeak() {
+			e.Logf("OBSERVATION goroutines of the conn blocked for ever after Close: %s", strings.Join(stuck, " | "))
+		} else {
+			e.Fail("goroutines of the conn still blocked after Close returned and everything is idle: %s", strings.Join(stuck, " | "))
+		}
+	}
+	if w.cfg.transportClose {
+		return // the queue holds timeout results; draining it would release the blocked goroutines
+	}
 	// packets arriving now must never be returned
 	for i, s := range w.socks {
 		s.Inject([]byte(fmt.Sprintf("late@s%d", i)), &net.UDPAddr{IP: c19HopServerIP, Port: 20000})
@@ -302,6 +325,10 @@ func (w *c19World) afterClose() {
 	}
 	e.Logf("end: created=%d listens=%d fails=%d injected=%d", len(w.socks), w.listenCalls, w.listenFails, len(w.injected))
 }
+
+// c19GateGoroutineLeak: VERIF_C19_GATE_LEAK=1 turns the goroutine-leak observation of the
+// transport-close scenarios (see FINDINGS.md) into a reported violation.
+func c19GateGoroutineLeak() bool { return os.Getenv("VERIF_C19_GATE_LEAK") == "1" }
 
 func c19Body(cfg *c19Cfg) func(e *vsched.Exec) {
 	return func(e *vsched.Exec) {
@@ -347,8 +374,10 @@ func c19Body(cfg *c19Cfg) func(e *vsched.Exec) {
 			vsched.GoNamed(name, func() { defer wg.Done(); f() })
 		}
 
+		readerDone := make(chan struct{})
 		if cfg.reader {
 			spawn("reader", func() {
+				defer vchan.Close(readerDone)
 				buf := make([]byte, 64)
 				for i := 0; i < 64; i++ {
 					n, a, err := w.conn.ReadFrom(buf)
@@ -357,6 +386,11 @@ func c19Body(cfg *c19Cfg) func(e *vsched.Exec) {
 							if !w.closeCalled {
 								e.Fail("ReadFrom returned net.ErrClosed before any Close")
 							}
+							return
+						}
+						var ne net.Error
+						if errors.As(err, &ne) && ne.Timeout() && w.tclosing {
+							e.Logf("reader: timeout, stops")
 							return
 						}
 						e.Fail("ReadFrom failed: %v", err)
@@ -420,6 +454,13 @@ func c19Body(cfg *c19Cfg) func(e *vsched.Exec) {
 			e.Sleep(int64(cfg.window))
 			w.rest(fmt.Sprintf("window%d", k))
 			w.probe(k)
+		}
+		if cfg.transportClose && !w.closeCalled {
+			w.tclosing = true
+			_ = w.conn.SetReadDeadline(vtime.Now())
+			vchan.Recv(readerDone)
+			_ = w.conn.SetReadDeadline(time.Time{})
+			e.Logf("transport closed: queued=%d", vchan.Len(w.conn.recvQueue))
 		}
 		first := !w.closeCalled
 		w.closeCalled = true
